@@ -968,14 +968,14 @@ for _p in ("C01", "C02", "C03", "C04", "C10", "C12", "C13"):
     PROPS[_p]["families"].append(sys_family(700, 12000))
     PROPS[_p]["models"].append(sys_model("system-phased", tiers=("quick", "thorough") if _p in ("C12", "C13") else ("thorough",)))
     PROPS[_p]["models"].append(sys_model("system-interleaved", tiers=("thorough",), Phased=False, MaxEnv=6))
-# C18 with many requests in flight on several connections, over the in-memory, JSON and bincode transports, without a subscriber and
-# under a process-wide OpenTelemetry layer: every handler observes the trace id and sampling decision of its own call
-PROPS["C18"]["families"].append(sys_family(500, 8000))
-PROPS["C18"]["families"].append(sys_family(500, 8000, sub="otel"))
     PROPS[_p]["assumptions"] = PROPS[_p]["assumptions"] + [
         "sys family: listener -> max_channels_per_key -> max_concurrent_requests_per_channel -> execute -> spawn_incoming and spawned "
         "clients on a current-thread tokio runtime with a paused clock, run until idle after (batches of) application steps; "
         "the interleavings are the runtime's, the rules of ObsSys.tla are sound for any of them"]
+# C18 with many requests in flight on several connections, over the in-memory, JSON and bincode transports, without a subscriber and
+# under a process-wide OpenTelemetry layer: every handler observes the trace id and sampling decision of its own call
+PROPS["C18"]["families"].append(sys_family(500, 8000))
+PROPS["C18"]["families"].append(sys_family(500, 8000, sub="otel"))
 
 # ------------------------------------------------------------------ manifest texts
 def _mt(spec, what, design, note_extra=""):
